@@ -120,7 +120,8 @@ class Ctx:
         p = subprocess.run(["go", "build", "-tags", "verif", "-o", out, "./cmd/obiverif"],
                            cwd=hdir, env=self.goenv(), capture_output=True, text=True, timeout=1500)
         if p.returncode != 0:
-            raise Inconclusive("harness build failed:\n" + p.stderr[-4000:])
+            errs = [l for l in p.stderr.splitlines() if re.search(r"\.go:\d+:\d+:", l) and "warning" not in l and "note:" not in l]
+            raise Inconclusive("harness build failed:\n" + ("\n".join(errs[:40]) or p.stderr[-4000:]))
         log("harness built in %.1fs" % (time.time() - t))
         self._harness = out
         return out
@@ -139,7 +140,8 @@ class Ctx:
             p = subprocess.run(args, cwd=REPO, env=self.goenv(inside_repo=True),
                                capture_output=True, text=True, timeout=1500)
             if p.returncode != 0:
-                raise Inconclusive("command build failed:\n" + p.stderr[-4000:])
+                errs = [l for l in p.stderr.splitlines() if re.search(r"\.go:\d+:\d+:", l) and "warning" not in l and "note:" not in l]
+                raise Inconclusive("command build failed:\n" + ("\n".join(errs[:40]) or p.stderr[-4000:]))
             for n in todo:
                 self._bins[n] = os.path.join(bindir, n)
             log("built %s in %.1fs" % (",".join(todo), time.time() - t))
